@@ -2285,6 +2285,25 @@ pub fn build_borrow_stress(raw: u64) -> AppSpec {
             outputs.push((shallow, Mode::Ref));
         }
     }
+    // * 0-2 values consumed by value around a fallible constructor: by the constructor itself (upstream of the `match`),
+    //   by its error handler (error arm only) and by the request handler (success arm only); each consumer may also
+    //   just borrow. Which consumers compete depends on the control-flow path.
+    let mut err_handlers: Vec<CompSpec> = vec![];
+    let mut n_errs = 0usize;
+    let n_forks = next() % 3;
+    for _ in 0..n_forks {
+        let ticket = types.len();
+        types.push(mk(vec![], next() % 4 != 0, None));
+        let mode = |r: usize| if r % 3 == 0 { Mode::Ref } else { Mode::Move };
+        let session = types.len();
+        let mut sess = mk(vec![(ticket, mode(next()))], false, None);
+        sess.fallible = Some(n_errs);
+        types.push(sess);
+        err_handlers.push(CompSpec { kind: CompKind::ErrHandler { err: n_errs, default: false }, inputs: vec![(ticket, mode(next()))], fallible: None, is_async: false, route: None, fw: vec![], gens: vec![] });
+        n_errs += 1;
+        outputs.push((session, if next() % 2 == 0 { Mode::Ref } else { Mode::Move }));
+        outputs.push((ticket, mode(next())));
+    }
     for i in (1..outputs.len()).rev() {
         if next() % 3 == 0 {
             outputs.swap(i, next() % (i + 1));
@@ -2299,6 +2318,10 @@ pub fn build_borrow_stress(raw: u64) -> AppSpec {
     }
     let mut bp: Vec<Reg> = order.into_iter().map(|t| Reg::Ctor { ty: t, variant: 0 }).collect();
     let mut comps = vec![];
+    for eh in err_handlers {
+        bp.push(Reg::Comp { idx: comps.len() });
+        comps.push(eh);
+    }
     if next() % 3 == 0 {
         // a pre-processing middleware that borrows some of the values the handler consumes
         let inputs: Vec<(usize, Mode)> = outputs.iter().filter(|(t, _)| types[*t].view_of.is_none()).filter(|_| next() % 3 == 0).map(|(t, _)| (*t, Mode::Ref)).collect();
@@ -2315,5 +2338,5 @@ pub fn build_borrow_stress(raw: u64) -> AppSpec {
         fw: vec![],
         gens: vec![],
     });
-    AppSpec { peel: false, types, n_errs: 0, comps, bp, note: format!("wild (borrow-checker stress: {n_x} X patterns, {n_chains} capture chains)") }
+    AppSpec { peel: false, types, n_errs, comps, bp, note: format!("wild (borrow-checker stress: {n_x} X patterns, {n_chains} capture chains, {n_forks} values consumed around a fallible constructor)") }
 }
